@@ -359,7 +359,7 @@ func cmdCheck(args []string) int {
 				if o.Class == "V" {
 					to, weak = 3, "" // reachability: only a refutation matters, and it is immediate when there is one
 					if strings.HasPrefix(o.Label, "pre:") || strings.HasPrefix(o.Label, "after:") {
-						to = 1
+						to = 3
 					}
 				}
 				res := Solve2(script, weak, smtDir, fmt.Sprintf("t%d_o%d", ti, oi), to)
